@@ -32,7 +32,7 @@ fn angles() -> Vec<f64> {
 }
 
 pub fn run() -> Option<Report> {
-    let mut r = Report::new("angles: ~330 special values (0, +-pi, +-2pi, odd multiples of pi up to 61pi, 1000pi, +-1e6, each with +-1 and +-2 ulp neighbours, grids of 0.37 and pi/4, tiny negatives); all pairs of a 60-value subset for directed angles; AngleInterval over 13 starts x 13 extents x 40 probes; vectors: 24 directions x 24 directions incl. equal and exactly opposite; Interval over 9 bound values incl. +-inf, 0, -0 and equal bounds");
+    let mut r = Report::new("angles: ~330 special values (0, +-pi, +-2pi, odd multiples of pi up to 61pi, 1000pi, +-1e6, each with +-1 and +-2 ulp neighbours, grids of 0.37 and pi/4, tiny negatives); all pairs of a 60-value subset for directed angles; AngleInterval over 13 starts x 13 extents x 40 probes; vectors: 24 directions x 24 directions incl. equal and exactly opposite; Interval over 9 bound values incl. +-inf, 0, -0 and equal bounds; wave 5: whole turns up to 159155 x 2pi and angles 1e-6 .. 5e-324 around 0 / pi / 2pi, directed angles over 17 first angles (up to +-1e6) x (all pairs + 24 tie partners), vectors 24 x 24 directions x lengths {1e-9,1e-3,1,1e4,1e8}^2, AngleInterval 17 starts (up to +-1e6) x 21 extents (1e-13 .. 100, both signs, one ulp around a full turn) with probes 1e-9 inside / outside each end, intersects over (11 starts x 13 extents)^2 incl. point arcs and full turns + 8 exact ties, Interval over 15 bounds (f64::MIN/MAX, +-1e300, +-1e-300, subnormals) ^4 with ulp-neighbour probes");
     let av = angles();
     for &a in av.iter() {
         r.case();
